@@ -74,12 +74,13 @@ theorem arcCase_bookkeeping (rx ry phi : α) (l sw : Bool) (e : Pt α) (o : SegO
     split at h
     · exact absurd h (by simp)
     · rename_i st startTheta nextLarge hcuts
-      have hb := arcCuts_bookkeeping G O rx ry phi sw o o.inv _ _ hcuts
+      have hb := arcCuts_bookkeeping G O rx ry phi sw o _ _ _ hcuts
+      have hpl := polished_length O o s.T _ hlen'
       simp only [Option.some.injEq] at h
       subst h
       refine ⟨?_, rfl, rfl⟩
       simp only at hb ⊢
-      split <;> simp [hb.1, hlen']
+      split <;> simp [hb.1, hpl, hlen']
 
 /-! ### the interval walk, same bookkeeping -/
 
